@@ -42,6 +42,7 @@ func loadKnown(prop string) map[string]KnownFinding {
 
 var knownGlobal map[string]KnownFinding
 var traceCalls bool
+var partialRun bool
 
 type Sample struct {
 	Harness string `json:"harness"`
@@ -430,8 +431,10 @@ func (r *Report) finish(all []*HarnessResult, g *genFiles) int {
 		"violations":  len(r.violations),
 	}
 	b, _ := json.MarshalIndent(ev, "", " ")
-	os.MkdirAll(filepath.Join(verifDir, "evidence"), 0o755)
-	os.WriteFile(filepath.Join(verifDir, "evidence", r.cfg.ID+".json"), b, 0o644)
+	if !partialRun { // a run restricted with -only is a debugging run: it must not replace the evidence of the full check
+		os.MkdirAll(filepath.Join(verifDir, "evidence"), 0o755)
+		os.WriteFile(filepath.Join(verifDir, "evidence", r.cfg.ID+".json"), b, 0o644)
+	}
 	fmt.Printf("%s %s: %d obligations, %d discharged (%d non-trivial), %d queries, solver %d ms, validated traces %d, wall %.1fs, exit %d\n",
 		r.cfg.ID, tier, r.obls, r.discharged, r.nontrivial, r.queries, r.solverMS, r.validated, r.wall, code)
 	return code
